@@ -8,9 +8,9 @@ function = "Circuit::expandCellsToDensity, expandCellsByFactor, computeRowPlacem
 variants = [
   {name = "byFactor", enforce = "Circuit_expandCellsByFactor", tier = "thorough", timeout = 3000, defines = ["H_FACTOR"], replace = ["Circuit_computeRowPlacementArea"]},
   {name = "byFactorStep", enforce = "factor_step", defines = ["H_FSTEP"]},
-  {name = "toDensityWidth", enforce = "density_width", defines = ["H_DWIDTH"]},
-  {name = "toDensityStep", enforce = "density_step", defines = ["H_DSTEP"]},
-  {name = "toDensityFrame", enforce = "Circuit_expandCellsToDensity", defines = ["H_DFRAME"], replace = ["Circuit_computeRowPlacementArea"]},
+  {name = "toDensityWidth", properties = ["C18"], enforce = "density_width", defines = ["H_DWIDTH"]},
+  {name = "toDensityStep", properties = ["C18"], safety_tier = "thorough", enforce = "density_step", defines = ["H_DSTEP"]},
+  {name = "toDensityFrame", properties = ["C18"], safety_tier = "thorough", enforce = "Circuit_expandCellsToDensity", defines = ["H_DFRAME"], replace = ["Circuit_computeRowPlacementArea"]},
 ]
 assumptions = ["the density cap ('utilisation not above the target beyond rounding', 'within one cell height of target*area') is a sum over all cells in double arithmetic: NOT decided here (the per-cell step is proved in two halves: the width is the capped fractional width rounded down, never below the old width under a sufficient cap; the carry receives exactly the AREA h * (fractional - integer width), whole units of width are taken back from it, it stays in [0, h); NOT proved: carry on exit = carry after the addition - h * units (exact repeated double subtraction)",
                "computeRowPlacementArea is replaced by a contract (non-negative area) in the two whole-function variants; computeCellExpansion (std::sort + structured bindings over pairs) is not under contract",
